@@ -11,8 +11,12 @@
    Runners: run_serial = the serial Runner.  run_script ops = ANY runner built on the same
    dispatcher generator and the same select_task/execute_task/process_task_result/finish (MRunner,
    MThreadRunner with any number of workers and any arrival order of results): ops is the sequence of
-   its calls; the *_any_schedule theorems hold for every such sequence, well-formed or not. *)
-From DoitV Require Import Base Dispatch Runner Delayed DelayedP.
+   its calls; the *_any_schedule theorems hold for every such sequence, well-formed or not.
+   Several runs in one process (DoitMain.run twice, doit.api, %doit, a test-suite of a dodo file): every theorem above speaks
+   about ONE run that starts from [loaded tab ld tg] -- from loaders as load_tasks hands them out.  They apply to the n-th run
+   of a process because each run starts from fresh DelayedLoader copies: last section (C15_every_load_hands_out_fresh_copies,
+   from the frame property of selections and runs; the seeded change C15e -- no copy for plain-function creators -- refuted). *)
+From DoitV Require Import Base Dispatch Runner Delayed DelayedP DelayedFrameP.
 Open Scope N_scope.
 
 (* each creator function is evaluated at most once in a run (HEAD), whatever the number of
@@ -504,3 +508,141 @@ Proof.
   - intro k. unfold rc_rxn. apply N.leb_le. lia.
   - eexists. split; vm_compute; reflexivity.
 Qed.
+
+(* ------------------------------------------------------------------ several runs in ONE process: each run starts from fresh DelayedLoader copies *)
+(* [unref A d]: no ExecNode yet and no table entry refers to loader object A.  Frame property: _filter_tasks (loader.basename) and a
+   run (loader.created) write loader objects only THROUGH the tasks that refer to them -- an unreferenced object is, after the
+   selection and after the whole run (serial runner; any runner and schedule; every variant of the dispatcher; runs ending with an
+   error or out of fuel included), what it was before *)
+Theorem C15_selection_writes_only_referenced_loaders : forall sv base_of is_rx rmatch rx_name auto d order sel d0 A,
+  unref A d -> process_sel sv base_of is_rx rmatch rx_name auto d order sel = Some d0 ->
+  unref A d0 /\ q_ld d0 A = q_ld d A.
+Proof. exact select_frame. Qed.
+Print Assumptions C15_selection_writes_only_referenced_loaders.
+
+Theorem C15_run_writes_only_referenced_loaders : forall v keys creators wake_rank calc_rank continue_ always fuel d0 A,
+  unref A d0 -> heap_after_serial v keys creators wake_rank calc_rank continue_ always fuel d0 A = q_ld d0 A.
+Proof. exact run_frame_serial. Qed.
+Print Assumptions C15_run_writes_only_referenced_loaders.
+
+Theorem C15_run_writes_only_referenced_loaders_any_schedule : forall v keys creators wake_rank calc_rank continue_ always fuel ops d0 A,
+  unref A d0 -> heap_after_script v keys creators wake_rank calc_rank continue_ always fuel ops d0 A = q_ld d0 A.
+Proof. exact run_frame_script. Qed.
+Print Assumptions C15_run_writes_only_referenced_loaders_any_schedule.
+
+(* after load_tasks (HEAD: copy.copy for every placeholder -- plain function, bound method, one per name in `creates`) the loader of a
+   placeholder is never the object stored on the creator function: no task refers to it (restates, for the plain-function case too,
+   "one DelayedLoader copy per placeholder" on which C15_creator_once and the C15b refutation above rest) *)
+Theorem C15_placeholder_loader_is_a_copy : forall fobj owner shares statics,
+  (forall c, owner (fobj c) = None) -> (forall k t, statics k = Some t -> dt_loader t = None) ->
+  forall heap tg c, unref (fobj c) (load_state fobj owner shares LdCopy heap statics tg).
+Proof. exact load_state_unref. Qed.
+Print Assumptions C15_placeholder_loader_is_a_copy.
+
+(* load_tasks as it is (Delayed.load_state LdCopy: every placeholder -- plain function, bound method, one per name in `creates` -- gets
+   a copy; the object stored on the creator function, address fobj c, is no placeholder's loader; static tasks have no loader).
+   Whatever is selected and however the run goes, the object stored on the function is not written ... *)
+Theorem C15_function_loader_never_written : forall fobj owner shares statics,
+  (forall c, owner (fobj c) = None) -> (forall k t, statics k = Some t -> dt_loader t = None) ->
+  forall sv base_of is_rx rmatch rx_name auto v keys creators wake_rank calc_rank continue_ always fuel heap tg order sel d0 c,
+  process_sel sv base_of is_rx rmatch rx_name auto (load_state fobj owner shares LdCopy heap statics tg) order sel = Some d0 ->
+  heap_after_serial v keys creators wake_rank calc_rank continue_ always fuel d0 (fobj c) = heap (fobj c).
+Proof. exact function_loader_never_written_serial. Qed.
+Print Assumptions C15_function_loader_never_written.
+
+Theorem C15_function_loader_never_written_any_schedule : forall fobj owner shares statics,
+  (forall c, owner (fobj c) = None) -> (forall k t, statics k = Some t -> dt_loader t = None) ->
+  forall sv base_of is_rx rmatch rx_name auto v keys creators wake_rank calc_rank continue_ always fuel ops heap tg order sel d0 c,
+  process_sel sv base_of is_rx rmatch rx_name auto (load_state fobj owner shares LdCopy heap statics tg) order sel = Some d0 ->
+  heap_after_script v keys creators wake_rank calc_rank continue_ always fuel ops d0 (fobj c) = heap (fobj c).
+Proof. exact function_loader_never_written_script. Qed.
+Print Assumptions C15_function_loader_never_written_any_schedule.
+
+(* ... so the NEXT load_tasks of the process (on the heap the run left) gives every placeholder T of creator c a loader equal to
+   what the function object held before this run -- `created` and `basename` written by this run cannot be seen by the next -- and
+   the same placeholder task.  By induction over the runs of a process: with function objects as create_after makes them
+   (created = False, basename = None) EVERY run starts from [loaded] with fresh loaders, which is the state the theorems above
+   quantify over and the state the correspondence check renders for every run of a sequence (harness oracle LF) *)
+Theorem C15_every_load_hands_out_fresh_copies : forall fobj owner shares statics,
+  (forall c, owner (fobj c) = None) -> (forall k t, statics k = Some t -> dt_loader t = None) ->
+  forall sv base_of is_rx rmatch rx_name auto v keys creators wake_rank calc_rank continue_ always fuel heap tg order sel d0,
+  process_sel sv base_of is_rx rmatch rx_name auto (load_state fobj owner shares LdCopy heap statics tg) order sel = Some d0 ->
+  let heap' := heap_after_serial v keys creators wake_rank calc_rank continue_ always fuel d0 in
+  forall T c, owner T = Some c ->
+    load_heap fobj owner shares LdCopy heap' T = heap (fobj c) /\
+    load_tab fobj owner shares LdCopy heap' statics T = load_tab fobj owner shares LdCopy heap statics T.
+Proof. exact every_load_fresh_serial. Qed.
+Print Assumptions C15_every_load_hands_out_fresh_copies.
+
+Theorem C15_every_load_hands_out_fresh_copies_any_schedule : forall fobj owner shares statics,
+  (forall c, owner (fobj c) = None) -> (forall k t, statics k = Some t -> dt_loader t = None) ->
+  forall sv base_of is_rx rmatch rx_name auto v keys creators wake_rank calc_rank continue_ always fuel ops heap tg order sel d0,
+  process_sel sv base_of is_rx rmatch rx_name auto (load_state fobj owner shares LdCopy heap statics tg) order sel = Some d0 ->
+  let heap' := heap_after_script v keys creators wake_rank calc_rank continue_ always fuel ops d0 in
+  forall T c, owner T = Some c ->
+    load_heap fobj owner shares LdCopy heap' T = heap (fobj c) /\
+    load_tab fobj owner shares LdCopy heap' statics T = load_tab fobj owner shares LdCopy heap statics T.
+Proof. exact every_load_fresh_script. Qed.
+Print Assumptions C15_every_load_hands_out_fresh_copies_any_schedule.
+
+(* the dodo file of seeded/C15e/demo_C15e.py.  1 = pre, 2 = build = create_after(executed='pre', target_regex='.*\.out') (a plain
+   function, no `creates`), 9 = the DelayedLoader stored on the function task_build, 3 = build:a (target 10 = a.out, task_dep pre),
+   4 = build:b (target 11 = b.out), 10 + f = '_regex_target_<f>:build' *)
+Definition pr_fobj (c : N) : name := 9.
+Definition pr_owner (T : name) : option N := if T =? 2 then Some 0 else None.
+Definition pr_shares (T : name) : bool := true.
+Definition pr_statics (k : name) : option dtask := if k =? 1 then Some ex_x else None.
+Definition pr_heap0 : name -> loader := fun A => if A =? 9 then Build_loader 0 (Some 1) None false true else empty_loader.
+Definition pr_creators (c : N) (t : name) : list (name * dtask) := [(2, ex_sub [3; 4] []); (3, ex_sub [1] [10]); (4, ex_sub [] [11])].
+Definition pr_keys : list name := [1; 2; 3; 4; 9; 20; 21].
+Definition pr_sel lv heap (sel : option (list name)) :=
+  process_sel SelHead (fun n => n) (fun n => 20 <=? n) (fun T f => (f =? 10) || (f =? 11)) (fun f k => 10 + f) false
+              (load_state pr_fobj pr_owner pr_shares lv heap pr_statics (fun _ => None)) [1; 2] sel.
+Definition pr_run d := let r := run_serial VHead pr_keys pr_creators (fun _ _ => 0) (fun x => x) false false 200 d in (enc_dtrace (fst r), snd r).
+Definition pr_heap_after d := heap_after_serial VHead pr_keys pr_creators (fun _ _ => 0) (fun x => x) false false 200 d.
+(* two runs of one process: load_tasks + selection sel1 + run; then load_tasks on the heap that run left + selection sel2 + run *)
+Definition pr_two lv (sel1 sel2 : option (list name)) :=
+  match pr_sel lv pr_heap0 sel1 with None => None | Some d1 =>
+  match pr_sel lv (pr_heap_after d1) sel2 with None => None | Some d2 => Some (pr_run d1, pr_run d2) end end.
+
+(* the hypotheses of the theorems of this section are satisfiable, and the run they speak about does write loader objects:
+   after `doit run a.out` the copy made for the placeholder (address 2) says created, basename build -- the function's object does not *)
+Example C15_process_nonvacuous :
+  (forall c, pr_owner (pr_fobj c) = None) /\ (forall k t, pr_statics k = Some t -> dt_loader t = None) /\
+  exists d1, pr_sel LdCopy pr_heap0 (Some [10]) = Some d1 /\
+             pr_heap_after d1 2 = Build_loader 0 (Some 1) (Some 2) true true /\ pr_heap_after d1 9 = pr_heap0 9 /\
+             load_heap pr_fobj pr_owner pr_shares LdCopy (pr_heap_after d1) 2 = Build_loader 0 (Some 1) None false true.
+Proof.
+  split; [intro c; reflexivity|]. split.
+  - intros k t. unfold pr_statics. destruct (k =? 1); [|discriminate]. intro H; inversion H; reflexivity.
+  - eexists. split; [vm_compute; reflexivity|]. vm_compute. repeat split; reflexivity.
+Qed.
+
+(* HEAD: `doit run a.out` then, in the same process, `doit run b.out`: pre, the creator (once, after pre), build:b and the hidden
+   placeholder; then `doit run`: pre, the creator, build:a, build:b, build -- each run as in a fresh process *)
+Example C15_second_run_example :
+  pr_two LdCopy (Some [10]) (Some [11]) =
+    Some (([1;1; 5;1; 7;1; 6;1;  14;0;2;2;  1;3; 5;3; 7;3; 6;3;  1;20; 5;20; 7;20; 6;20;  10]%Z, 0),
+          ([1;1; 5;1; 7;1; 6;1;  14;0;2;2;  1;4; 5;4; 7;4; 6;4;  1;21; 5;21; 7;21; 6;21;  10]%Z, 0)) /\
+  option_map snd (pr_two LdCopy (Some [10]) None) =
+    Some ([1;1; 5;1; 7;1; 6;1;  14;0;2;2;  1;3; 5;3; 7;3; 6;3;  1;4; 5;4; 7;4; 6;4;  1;2; 5;2; 7;2; 6;2;  10]%Z, 0).
+Proof. vm_compute. split; reflexivity. Qed.
+
+(* REFUTED for the seeded change C15e (LdShare: the placeholder of a plain-function creator without `creates` carries the object
+   stored on the function, address 9): the first run is fine (the creator is evaluated through object 9), but it leaves created = True
+   on the function (to which the placeholder of every later load refers); in the second run of the process the creator is never evaluated: `doit run b.out` ends with "target not found"
+   ([15; 11], exit status 3) and `doit run` executes the placeholder build as an empty task -- build:a and build:b are missing -- with
+   exit status 0 *)
+Theorem C15_every_load_fresh_shared_loader_refuted :
+  pr_two LdShare (Some [10]) (Some [11]) =
+    Some (([1;1; 5;1; 7;1; 6;1;  14;0;9;2;  1;3; 5;3; 7;3; 6;3;  1;20; 5;20; 7;20; 6;20;  10]%Z, 0),
+          ([1;1; 5;1; 7;1; 6;1;  10;  15;11]%Z, 3)) /\
+  option_map snd (pr_two LdShare (Some [10]) None) = Some ([1;1; 5;1; 7;1; 6;1;  1;2; 5;2; 7;2; 6;2;  10]%Z, 0) /\
+  dt_loader (tab_get (load_state pr_fobj pr_owner pr_shares LdShare pr_heap0 pr_statics (fun _ => None)) 2) = Some (pr_fobj 0) /\
+  (exists d1, pr_sel LdShare pr_heap0 (Some [10]) = Some d1 /\ l_created (pr_heap_after d1 (pr_fobj 0)) = true /\
+              l_created (load_heap pr_fobj pr_owner pr_shares LdShare (pr_heap_after d1) (loader_of pr_fobj pr_owner pr_shares LdShare 2)) = true).
+Proof.
+  split; [vm_compute; reflexivity|]. split; [vm_compute; reflexivity|]. split; [reflexivity|].
+  eexists. split; [vm_compute; reflexivity|]. split; vm_compute; reflexivity.
+Qed.
+Print Assumptions C15_every_load_fresh_shared_loader_refuted.
